@@ -7,7 +7,7 @@ Statement AST (JSON-able):
   {"name", "bases": [names], "members": [member], "required": None|[names], "optional": None|[names],
    "additional": None|bool, "ignore_none": None|bool, "attrs": [[name, kind]], "keys_of": [[member names]]}
   member: {"name", "kind": "decl", "field": <fieldgen AST>, "imm": bool, "style": "ann"|"assign",
-           "kwd": None|defval, "eqd": None|defval}
+           "kwd": None|defval, "eqd": None|defval, optional "spell": source text of an equivalent spelling of the field}
         | {"name", "kind": "const", "value": reified}
   defval: ["lit", reified] | ["factory", reified]       (factory: `lambda: <value>`)
   attr kind: "bool" | "list" | "dict" | "int" | "str" | "type"
@@ -39,6 +39,10 @@ def defval_src(d):
 
 
 def field_decl_src(m):
+    if m.get("spell") and m.get("kwd") is None and not m.get("imm"):
+        # another spelling of the SAME field (bare Field class / plain python type), chosen by the generator: the
+        # model's statement is the one of the canonical constructor call
+        return m["spell"]
     src = G.field_src(m["field"])
     extra = []
     if m.get("imm"):
